@@ -19,7 +19,10 @@ type TGen struct {
 	nalias int
 	used   map[string]bool // response names used anywhere in the document (a repeated name gets a fresh alias)
 	allowVars bool
-	Feat   map[string]int
+	// sharedOK: the selection set being generated is the body of a field (a scope of its own under a
+	// response key that is unique in the document), so a response name used elsewhere may be reused here
+	sharedOK bool
+	Feat     map[string]int
 }
 
 func (g *TGen) feat(k string) {
@@ -245,7 +248,10 @@ func (g *TGen) selectionSet(p *ast.Definition, depth int) ast.SelectionSet {
 				}
 			}
 			f.Directives = g.directives(ast.LocationInlineFragment)
+			so := g.sharedOK
+			g.sharedOK = false
 			f.SelectionSet = g.selectionSet(target, depth-1)
+			g.sharedOK = so
 			ss = append(ss, f)
 			g.feat("inline_fragment")
 		case k == 1 && depth > 0:
@@ -258,7 +264,10 @@ func (g *TGen) selectionSet(p *ast.Definition, depth int) ast.SelectionSet {
 			fd := &ast.FragmentDefinition{Name: fmt.Sprintf("F%d", g.nfrag), TypeCondition: target.Name}
 			saveVars := g.allowVars
 			g.allowVars = false // fragments are shared between operations
+			so := g.sharedOK
+			g.sharedOK = false
 			fd.SelectionSet = g.selectionSet(target, depth-1)
+			g.sharedOK = so
 			g.allowVars = saveVars
 			g.frags = append(g.frags, fd)
 			ss = append(ss, &ast.FragmentSpread{Name: fd.Name, Directives: g.directives(ast.LocationFragmentSpread)})
@@ -297,12 +306,22 @@ func (g *TGen) selectionSet(p *ast.Definition, depth int) ast.SelectionSet {
 				f.Alias = fmt.Sprintf("al%d", g.nalias)
 				g.feat("alias")
 			}
+			// the same response name for different fields of one type, in different selection sets
+			if g.sharedOK && !names["shared"] && r.Chance(1, 5) {
+				f.Alias = "shared"
+				g.feat("response_name_reused_in_another_scope")
+			}
 			names[f.Alias] = true
-			g.used[f.Alias] = true
+			if f.Alias != "shared" {
+				g.used[f.Alias] = true
+			}
 			f.Arguments = g.args(fd.Arguments)
 			f.Directives = g.directives(ast.LocationField)
 			if g.composite(ft) {
+				so := g.sharedOK
+				g.sharedOK = f.Alias != "shared"
 				f.SelectionSet = g.selectionSet(ft, depth-1)
+				g.sharedOK = so
 			}
 			ss = append(ss, f)
 			// an identical copy merges with the original
